@@ -463,11 +463,21 @@ func derefsUnguarded(par *ssa.Parameter) bool {
 // checkChunkBounds implements C01.bound.
 func checkChunkBounds(c *Ctx) {
 	P, R := c.P, c.R
+	checkChunkBoundsReader(c, "C01.bound")
+	// writer: min idiom on the slice bound in the chunk loop
+	wm := P.Func("rtmp", "(*Protocol).WriteMessage")
+	checkChunkBoundsWriter(c, P, R, wm)
+}
+
+// checkChunkBoundsReader: every chunk takes min(remaining, CURRENT input chunk size) bytes - the size in force when the
+// chunk is read, so that a Set Chunk Size between two chunks of an unfinished message applies to its later chunks.
+func checkChunkBoundsReader(c *Ctx, rule string) {
+	P, R := c.P, c.R
 	e := abs.NewEngine(P)
 	prep := rtmpPrep(e, P)
 	// reader: abstract interpretation of readMessagePayload over symbolic lengths
 	fn := P.Func("rtmp", "(*Protocol).readMessagePayload")
-	if R.Anchor(fn != nil, "C01.bound", "rtmp.(*Protocol).readMessagePayload") {
+	if R.Anchor(fn != nil, rule, "rtmp.(*Protocol).readMessagePayload") {
 		const pl, have, cs = "chunk.message.messageHeader.payloadLength", "len(chunk.message.Payload)", "v.input.opt.chunkSize"
 		res := e.Run(fn, func(p *abs.Path) []abs.Value {
 			prep(p)
@@ -511,11 +521,12 @@ func checkChunkBounds(c *Ctx) {
 				problems = append(problems, "bounds not proven: "+b)
 			}
 		}
-		report(R, "C01.bound", "rtmp|(*Protocol).readMessagePayload|min(remaining,input-chunk-size)", P.Pos(fn.Pos()),
+		report(R, rule, "rtmp|(*Protocol).readMessagePayload|min(remaining,input-chunk-size)", P.Pos(fn.Pos()),
 			fmt.Sprintf("each chunk takes min(remaining, input chunk size) bytes and the message completes exactly when full (%d paths)", len(res)), "", dedup(problems), nil)
 	}
-	// writer: min idiom on the slice bound in the chunk loop
-	wm := P.Func("rtmp", "(*Protocol).WriteMessage")
+}
+
+func checkChunkBoundsWriter(c *Ctx, P *core.Program, R *core.Run, wm *ssa.Function) {
 	if R.Anchor(wm != nil, "C01.bound", "rtmp.(*Protocol).WriteMessage") {
 		n := 0
 		core.EachInstr(wm, func(in ssa.Instruction) {
@@ -859,6 +870,7 @@ func runC02(c *Ctx) {
 	R.Require("C02.field-unset", 5)
 	R.Require("C02.ts-additive", 1)
 	R.Require("C02.complete", 2)
+	R.Require("C02.bound", 1)
 
 	// ---- C02.basic
 	l := newLayout(c, "C02.basic")
@@ -896,6 +908,9 @@ func runC02(c *Ctx) {
 
 	// ---- C02.inherit / C02.reject / C02.ts-additive
 	headerDecodeChecks(c, "C02.inherit", false)
+
+	// ---- C02.bound: chunks are cut at the input chunk size in force when each chunk is read
+	checkChunkBoundsReader(c, "C02.bound")
 
 	// ---- C02.complete: a completed message (also a zero-length one) is handed out once and detached from its chunk stream
 	checkMessageDetached(c, "C02.complete")
